@@ -46,7 +46,7 @@ def main():
                 meta = json.load(open(d + variant + "/meta.json"))
             except Exception:
                 meta = {}
-            if meta.get("expect", "") in ("missed", "alarm-false"):
+            if meta.get("expect", "") in ("missed", "alarm-false", "not-judged"):
                 continue  # recorded with its reason in meta.json and DESIGN.md
             if os.path.exists(d + variant + "/patch.diff"):
                 corpus.append({"id": "feature:%s-%s" % (tag, variant), "prop": prop, "patch": d + variant + "/patch.diff", "expect": expect})
